@@ -2138,6 +2138,10 @@ bool TypeChecker::checkExpression(expression_t expr)
         bool result = true;
         type_t type = expr[0].get_type();
         size_t parameters = type.size() - 1;
+        if (expr.get_size() != type.size()) {
+            // The builder has reported the wrong number of arguments; there is no argument to check for every parameter.
+            return false;
+        }
         for (uint32_t i = 0; i < parameters; i++) {
             type_t parameter = type[i + 1];
             expression_t argument = expr[i + 1];
